@@ -332,6 +332,58 @@ func vpSizeCell(typ pb.MessageType, ls, lu int, from uint64) {
 	vpStepCell(StateLeader, o, mo)
 }
 
+// the two largest leader cells, split by sender: the symbolic peer, the leader itself
+func vpH_step_L_MsgAppResp_from2()       { vpFromOnly = 2; vpCell(StateLeader, pb.MsgAppResp, 0) }
+func vpH_step_L_MsgAppResp_from1()       { vpFromOnly = 1; vpCell(StateLeader, pb.MsgAppResp, 0) }
+func vpH_step_L_MsgHeartbeatResp_from2() { vpFromOnly = 2; vpCell(StateLeader, pb.MsgHeartbeatResp, 0) }
+
+// lean variant of the peer-acknowledgement cell for the quick tier: no stable
+// entries, one unstable entry
+func vpH_step_L_MsgAppResp_from2_lean() {
+	vpFromOnly = 2
+	o := vpDefaultOpts(StateLeader)
+	o.ls, o.lu = 0, 1
+	vpStepCell(StateLeader, o, vpMsgOpts{typ: pb.MsgAppResp})
+}
+
+func vpH_step_L_MsgProp_lean() {
+	o := vpDefaultOpts(StateLeader)
+	o.ls, o.lu = 0, 1
+	vpStepCell(StateLeader, o, vpMsgOpts{typ: pb.MsgProp, maxEnts: 2, propEnts: true})
+}
+
+// C20-P1: the proposer may reuse its buffer after the call: the log must hold
+// its own copy of the payload bytes.
+func vpH_step_L_MsgProp_bytes() {
+	o := vpDefaultOpts(StateLeader)
+	o.ls, o.lu = 0, 1
+	o.plainData = true
+	nd := vpBuild(o)
+	r := nd.r
+	vpAssume(vpAnd(r.leadTransferee == None, uint64(r.maxUncommittedSize) == noLimit))
+	b0, b1 := vpU8(), vpU8()
+	buf := []byte{b0, b1}
+	m := &pb.Message{Type: pb.MsgProp.Enum(), From: new(uint64(1)), To: new(uint64(1)), Entries: []*pb.Entry{{Data: buf}}}
+	last := r.raftLog.lastIndex()
+	err := r.Step(m)
+	if r.trk.Progress[r.id] == nil {
+		vpAssert(err == ErrProposalDropped, "P2/removed-leader-drops-proposals")
+		return
+	}
+	vpAssert(err == nil, "P1/accepted")
+	// the proposer overwrites its buffer
+	buf[0], buf[1] = ^b0, ^b1
+	ents, e2 := r.raftLog.slice(last+1, last+2, noLimit)
+	vpAssert(e2 == nil && len(ents) == 1, "P1/appends-exactly-the-proposed-entries")
+	if len(ents) == 1 {
+		d := ents[0].GetData()
+		vpAssert(len(d) == 2, "P1/entry-payload-type-order-preserved")
+		if len(d) == 2 {
+			vpAssert(vpAnd(d[0] == b0, d[1] == b1), "P1/log-holds-its-own-copy-of-the-payload")
+		}
+	}
+}
+
 func vpH_size_L_MsgHeartbeatResp()   { vpSizeCell(pb.MsgHeartbeatResp, 0, 2, 2) }
 func vpH_size_L_MsgProp()            { vpSizeCell(pb.MsgProp, 0, 1, 0) }
 func vpH_size_L_MsgAppResp()         { vpSizeCell(pb.MsgAppResp, 0, 2, 2) }
